@@ -68,6 +68,20 @@ func setupDirective(fn *ssa.Function) string {
 	return ""
 }
 
+// raceDirective names the companion function that stresses the same operation
+// from several goroutines; it is run natively under the race detector to
+// confirm a shared-write finding (the engine itself never runs goroutines).
+func raceDirective(fn *ssa.Function) string {
+	if fd, ok := fn.Syntax().(*ast.FuncDecl); ok && fd.Doc != nil {
+		for _, c := range fd.Doc.List {
+			if strings.HasPrefix(c.Text, "//vp:race ") {
+				return strings.TrimSpace(strings.TrimPrefix(c.Text, "//vp:race "))
+			}
+		}
+	}
+	return ""
+}
+
 func declaredCovers(fn *ssa.Function) []string {
 	var out []string
 	seen := map[*ssa.Function]bool{}
@@ -261,6 +275,8 @@ func (in *Interp) runPath(fn *ssa.Function, item workItem, snap *snapshot) (rec 
 	in.covers = map[string]bool{}
 	in.knownSeen = map[string]bool{}
 	in.sharedW = nil
+	in.sharedAtomic = 0
+	in.atomicW = 0
 	in.observes = nil
 	in.ckEpoch = 0
 	in.permute = false
